@@ -216,7 +216,11 @@ struct Run {
         }
         // destruction closes the last output
         std::string last = outkind == "file" ? cur_name + suffix() : cur_path;
-        exp.reset();
+        if (h.value("unwind", false)) {
+            // the exporter is destroyed by stack unwinding: an unrelated exception of the application is in flight
+            struct Guard { std::unique_ptr<CdnsExporter>& e; ~Guard() { e.reset(); } };
+            try { Guard g{exp}; throw std::runtime_error("unrelated application error"); } catch (std::runtime_error&) {}
+        } else exp.reset();
         emit_out("destroy", last);
     }
 };
